@@ -1,5 +1,7 @@
 import Mav.Spec.PublishedCrc
 import Mav.Proofs.Dialect
+import Mav.Proofs.InitSound
+import Mav.Proofs.Codec
 import Mav.Gen.Dialects
 import Mav.Gen.MsgsAll
 import Mav.Gen.EnumsAll
@@ -22,6 +24,36 @@ theorem dialect_init_iff (msgs : List (UInt32 × Msg.GoStruct)) :
     exact ⟨h3, allRel_mem msgs rws h2⟩
   · rintro ⟨h1, h2⟩
     exact ⟨[] ++ rwsOf msgs, init_complete msgs [] (rwsOf msgs) (allRel_rwsOf msgs h2) h1 (by simp [Table.has])⟩
+
+/-- **C17 (what "malformed" means, and that it is refused at initialisation).** A struct the model of
+    `message.ReadWriter.Initialize` accepts is a MAVLink definition in the specification's sense (`Spec.Msg.ofGo`: name
+    `Message…`, exported fields of supported types, enum fields of an integer type, array and string lengths 1..255,
+    extension fields after the base fields, at most 255 bytes). So a struct that is NOT such a definition is refused by
+    `Initialize` (`fix: reject at initialization the message structs that cannot be encoded`). -/
+theorem malformed_struct_rejected_at_init (st : Msg.GoStruct) (h : Spec.Msg.ofGo st = none) :
+    ∃ e, Msg.init st = .error e := by
+  cases hi : Msg.init st with
+  | error e => exact ⟨e, rfl⟩
+  | ok rw =>
+    have := InitSound.accepted_is_definition st rw hi
+    rw [h] at this; cases this
+
+/-- **C17 (… not at first use).** For a struct `Initialize` accepts the byte-wide sizes did not wrap: the hypothesis `RWok` of
+    every C04 theorem (decoding never panics, encoding a well-typed value succeeds and round-trips; `C04.accepted_struct_usable`). -/
+theorem accepted_struct_sizes_exact (st : Msg.GoStruct) (rw : Msg.RW) (h : Msg.init st = .ok rw) : Msg.RWok rw :=
+  Msg.rwOk_of_bool rw (InitSound.accepted_never_wraps st rw h)
+
+/-- the rejection is not vacuous: structs of each malformed kind, refused by the model (and, in every run, by the code:
+    dialects `badform*` of the harness) -/
+example :
+    (Msg.init { name := "MessageX", fields := [{ goName := "count", elemType := "uint16", exported := false }] }).toOption = none ∧
+    (Msg.init { name := "MessageX", fields := [{ goName := "S", isArray := true, arrLen := 3, elemType := "string" }] }).toOption = none ∧
+    (Msg.init { name := "MessageX", fields := [{ goName := "A", isArray := true, arrLen := 300, elemType := "uint8" }] }).toOption = none ∧
+    (Msg.init { name := "MessageX", fields := [{ goName := "A", isArray := true, arrLen := 200, elemType := "uint8" },
+                                                { goName := "B", isArray := true, arrLen := 14, elemType := "uint32" }] }).toOption = none ∧
+    (Msg.init { name := "MessageX", fields := [{ goName := "A", elemType := "uint8", mavext := "true" },
+                                                { goName := "B", elemType := "uint32" }] }).toOption = none := by
+  set_option maxRecDepth 100000 in decide +kernel
 
 /-- **C17 (lookup).** After a successful initialisation, looking an id up returns the codec of the (unique) message with
     that id, and nothing for an absent id — for every 32-bit id. -/
